@@ -1,8 +1,8 @@
 (* Session/VmFold.v — C07 premise (a) for the compile-and-run stage, on the vm
    area's models (VM/Compile.v, VM/Machine.v, VM/RefSem.v):
    * the compiler model is a fold over the statements (cstmts_app);
-   * the static reference semantics is a fold over the statements (exec_stmts_app);
-   * hence (with C09_compile_correct_static) the stack machine running the code
+   * the reference semantics is a fold over the statements (exec_stmts_app);
+   * hence (with C09_compile_correct) the stack machine running the code
      compiled from a JOINED program p1 ++ p2 halts with the prints of p1 followed
      by the prints of p2 and with the last result of the sequential evaluation —
      i.e. what the model computes for a joined input is the fold of the
@@ -12,7 +12,7 @@
    program at minit), so "the incremental session on the machine" is represented
    by the reference semantics' state. *)
 From Coq Require Import String List Bool.
-From NV Require Import VM.Value VM.Ast VM.Bytecode VM.Compile VM.Machine VM.RefSem VM.ProofsStatic.
+From NV Require Import VM.Value VM.Ast VM.Bytecode VM.Compile VM.Machine VM.RefSem VM.Proofs.
 Import ListNotations.
 
 Section VmFold.
@@ -23,30 +23,28 @@ Section VmFold.
   Lemma cstmts_app : forall (p1 p2 : program Q) st, cstmts (p1 ++ p2) st = cstmts p2 (cstmts p1 st).
   Proof. intros. unfold cstmts. apply fold_left_app. Qed.
 
-  Notation sexec := (exec_stmts O (fun _ _ => false) (true, true)).
+  Notation sexec := (exec_stmts O (true, true)).
 
   Lemma exec_stmts_app : forall n (p1 p2 : program Q) st,
       sexec n (p1 ++ p2) st = bind (sexec n p1 st) (sexec n p2).
   Proof.
     intros n p1. induction p1 as [|s r IH]; intros p2 st; [reflexivity|].
     cbn [app exec_stmts].
-    destruct (exec_stmt O (fun _ _ => false) (true, true) n s st); cbn [bind]; try reflexivity.
+    destruct (exec_stmt O (true, true) n s st); cbn [bind]; try reflexivity.
     apply IH.
   Qed.
 
   (* the printed lines only grow: the prints of a joined input are those of the first part
      followed by those of the second *)
   Lemma exec_stmt_out_grows : forall n s st st',
-      exec_stmt O (fun _ _ => false) (true, true) n s st = Ok st' -> exists d, r_out st' = r_out st ++ d.
+      exec_stmt O (true, true) n s st = Ok st' -> exists d, r_out st' = r_out st ++ d.
   Proof.
-    intros n s st st' H. destruct s; cbn [exec_stmt] in H.
-    - destruct (top_eval _ _ _ _ _ _); cbn [bind] in H; inversion H; subst; cbn. exists []. now rewrite app_nil_r.
-    - destruct (top_eval _ _ _ _ _ _); cbn [bind] in H; inversion H; subst; cbn. exists []. now rewrite app_nil_r.
-    - inversion H; subst; cbn. exists []. now rewrite app_nil_r.
-    - inversion H; subst; cbn. exists []. now rewrite app_nil_r.
-    - inversion H; subst; cbn. exists []. now rewrite app_nil_r.
-    - destruct (evals _ _); cbn [bind] in H; try discriminate.
-      destruct (proc _ _ _); cbn [bind] in H; inversion H; subst; cbn. eexists; reflexivity.
+    intros n s st st' H. destruct s; cbn [exec_stmt] in H;
+      repeat match type of H with
+             | bind ?r _ = Ok _ => destruct r eqn:?; cbn [bind] in H; try discriminate
+             | match ?r with _ => _ end = Ok _ => destruct r eqn:?; try discriminate
+             end;
+      try (inversion H; subst; cbn; first [exists []; now rewrite app_nil_r | eexists; reflexivity]).
   Qed.
 
   Lemma exec_stmts_out_grows : forall n p st st', sexec n p st = Ok st' -> exists d, r_out st' = r_out st ++ d.
@@ -54,7 +52,7 @@ Section VmFold.
     intros n p. induction p as [|s r IH]; intros st st' H.
     - inversion H; subst. exists []. now rewrite app_nil_r.
     - cbn [exec_stmts] in H.
-      destruct (exec_stmt O (fun _ _ => false) (true, true) n s st) as [st1| | | |] eqn:E; cbn [bind] in H; try discriminate.
+      destruct (exec_stmt O (true, true) n s st) as [st1| | |] eqn:E; cbn [bind] in H; try discriminate.
       destruct (exec_stmt_out_grows _ _ _ _ E) as [d1 H1]. destruct (IH _ _ H) as [d2 H2].
       exists (d1 ++ d2). now rewrite H2, H1, app_assoc.
   Qed.
@@ -62,14 +60,13 @@ Section VmFold.
   (* the joined program on the machine = the sequential (folded) reference evaluation *)
   Theorem vm_joined_is_fold :
     forall (p1 p2 : program Q) n st1 st2,
-      ffi_parametric O -> NoDup (fn_names (p1 ++ p2)) ->
       compile_ok (compile (procs O) (p1 ++ p2)) = true ->
       sexec n p1 (rinit) = Ok st1 ->
       sexec n p2 st1 = Ok st2 ->
       exists m, Machine.run O (compile (procs O) (p1 ++ p2)) m = Ok (r_out st2, r_res st2).
   Proof.
-    intros p1 p2 n st1 st2 Hffi Hnd Hok H1 H2.
-    apply (compile_correct_static O (p1 ++ p2) n (r_out st2) (r_res st2) Hffi Hnd Hok).
-    unfold run_static, run. rewrite exec_stmts_app, H1. cbn [bind]. rewrite H2. reflexivity.
+    intros p1 p2 n st1 st2 Hok H1 H2.
+    apply (compile_correct O (p1 ++ p2) n (r_out st2) (r_res st2) Hok).
+    unfold run_ref, run. rewrite exec_stmts_app, H1. cbn [bind]. rewrite H2. reflexivity.
   Qed.
 End VmFold.
